@@ -1,4 +1,4 @@
-//go:build c03 || allprops
+//go:build c03 || c05 || allprops
 
 package main
 
